@@ -3,6 +3,7 @@ import PybropsModel.Model.Store
 import PybropsModel.Model.StoreCopy
 import PybropsModel.Model.StoreVcf
 import PybropsModel.Model.StoreFrame
+import PybropsModel.Model.StoreGraph
 open Lean
 
 namespace Drv.C16
@@ -166,10 +167,24 @@ def opCopy : J.Op := fun j => do
                  ("shared", J.ofBool shared),
                  ("src_after", ofObj (StoreCopy.view h'' ho)), ("copy_after", ofObj (StoreCopy.view h'' ho'))]
 
+/-- CHROM as text (a JSON number stands for its decimal spelling), ID possibly null -/
+def vraw (j : Json) : J.R StoreVcf.RawRec := do
+  let chrom ← match j.getObjVal? "chrom" with
+    | .ok (.str s) => pure s
+    | .ok v => do let i ← J.int v; pure (toString i)
+    | .error _ => J.fail "missing field chrom"
+  let pos ← J.field j "pos" J.int
+  let id ← J.field j "id" (J.opt J.str)
+  let calls ← J.field j "calls" (J.list (fun c => do
+    match ← J.list J.int c with
+    | [a, b] => pure (a, b)
+    | _ => J.fail "call: two alleles expected"))
+  pure ⟨chrom, pos, id, calls⟩
+
 def vrec (j : Json) : J.R StoreVcf.Rec := do
   let chrom ← J.field j "chrom" J.int
   let pos ← J.field j "pos" J.int
-  let id ← J.field j "id" J.str
+  let id ← J.fieldD j "id" J.str ""
   let calls ← J.field j "calls" (J.list (fun c => do
     match ← J.list J.int c with
     | [a, b] => pure (a, b)
@@ -186,9 +201,11 @@ def ofVcfOut (o : StoreVcf.Out) : Json :=
 /-- `c16.vcf`: the model of `from_vcf` -/
 def opVcf : J.Op := fun j => do
   let samples ← J.field j "samples" (J.list J.str)
-  let recs ← J.field j "recs" (J.list vrec)
+  let raws ← J.field j "recs" (J.list vraw)
   let g ← J.field j "group" J.bool
-  pure (ofVcfOut (StoreVcf.fromVcf samples recs g))
+  match StoreVcf.fromVcfRaw samples raws g with
+  | .ok o => pure (ofVcfOut o)
+  | .error e => pure (ofErr e)
 
 /-- **Spec oracle** `c16.spec_vcf` on what the implementation returned (labels + matrix):
     sample names; the variants — each with its chromosome, position, identifier and column of calls —
@@ -196,7 +213,9 @@ def opVcf : J.Op := fun j => do
     order (grouping); phased: both alleles, unphased: their sum -/
 def opSpecVcf : J.Op := fun j => do
   let samples ← J.field j "samples" (J.list J.str)
-  let recs ← J.field j "recs" (J.list vrec)
+  let raws ← J.field j "recs" (J.list vraw)
+  let recs : List StoreVcf.Rec := raws.map (fun r => ⟨(r.chrom.toInt?).getD 0, r.pos, r.id.getD "", r.calls⟩)
+  let hasId : List Bool := raws.map (·.id.isSome)
   let g ← J.field j "group" J.bool
   let phased ← J.field j "phased" J.bool
   let taxa ← J.field j "taxa" (J.list J.str)
@@ -213,8 +232,13 @@ def opSpecVcf : J.Op := fun j => do
     else (List.range n).map (fun i => ((matU.getD i []).getD jx 0))
   let colRec (r : StoreVcf.Rec) : List Int :=
     if phased then r.calls.map (·.1) ++ r.calls.map (·.2) else r.calls.map (fun c => c.1 + c.2)
-  let outVars := (List.range p).map (fun jx => (chr.getD jx 0, pos.getD jx 0, nam.getD jx "", colOut jx))
-  let recVars := recs.map (fun r => (r.chrom, r.pos, r.id, colRec r))
+  -- a record without identifier (`.`) has nothing to reproduce: its name is not compared
+  let outVars := (List.range p).map (fun jx => (chr.getD jx 0, pos.getD jx 0, colOut jx))
+  let recVars := recs.map (fun r => (r.chrom, r.pos, colRec r))
+  let outNamed := (List.range p).map (fun jx => (chr.getD jx 0, pos.getD jx 0, nam.getD jx "", colOut jx))
+  let recNamed := (recs.zip hasId).filterMap (fun rh => if rh.2 then some (rh.1.chrom, rh.1.pos, rh.1.id, colRec rh.1) else none)
+  let namesFileOrder := ((recs.zip hasId).zipIdx).all (fun rhi => !rhi.1.2 || nam.getD rhi.2 "" == rhi.1.1.id)
+  let namesAnyOrder := recNamed.all (fun v => recNamed.count v ≤ outNamed.count v)
   let shapeOk := chr.length == p && pos.length == p && nam.length == p &&
     (if phased then matP.length == 2 && matP.all (fun pl => pl.length == n && pl.all (·.length == p))
      else matU.length == n && matU.all (·.length == p))
@@ -222,7 +246,8 @@ def opSpecVcf : J.Op := fun j => do
   let isPerm := outVars.length == recVars.length && outVars.all (fun v => outVars.count v == recVars.count v)
   let sorted := (List.range (p - 1)).all (fun jx =>
     !(StoreVcf.keyLt (chr.getD (jx + 1) 0, pos.getD (jx + 1) 0) (chr.getD jx 0, pos.getD jx 0)))
-  let ok := taxa == samples && shapeOk && (if g then isPerm && sorted else sameOrder)
+  let ok := taxa == samples && shapeOk &&
+    (if g then isPerm && sorted && namesAnyOrder else sameOrder && namesFileOrder)
   pure <| J.obj [("ok", J.ofBool ok),
     ("detail", J.ofStr s!"taxa={taxa == samples} shape={shapeOk} same_order={sameOrder} perm={isPerm} sorted={sorted}")]
 
@@ -260,10 +285,122 @@ def opFrameGMap : J.Op := fun j => do
       ("genpos", J.ofList J.ofRat m.genpos)]
   | .error e => pure (ofErr e)
 
+def mat3 (j : Json) : J.R (List (List (List Rat))) := J.list (J.mat J.rat) j
+
+/-- `c16.frame_cmat`: coancestry wide layout -/
+def opFrameCMat : J.Op := fun j => do
+  let mat ← J.field j "mat" (J.mat J.rat)
+  let taxa ← J.field j "taxa" (J.opt (J.list J.str))
+  let grp ← J.field j "taxa_grp" (J.opt (J.list J.int))
+  let tc ← J.field j "taxa_col" J.str
+  let gc ← J.field j "taxa_grp_col" (J.opt J.str)
+  let c : StoreFrame.CMat Rat := ⟨mat, taxa, grp⟩
+  match StoreFrame.cmFromPandas (StoreFrame.cmToPandas c tc gc) tc gc with
+  | .ok r => pure <| J.obj [("mat", J.ofMat J.ofRat r.mat), ("taxa", J.ofOpt (J.ofList J.ofStr) r.taxa),
+      ("taxa_grp", J.ofOpt (J.ofList J.ofInt) r.taxa_grp)]
+  | .error e => pure (ofErr e)
+
+/-- `c16.frame_egmap`: extended genetic map layout -/
+def opFrameEMap : J.Op := fun j => do
+  let chr ← J.field j "chrgrp" (J.list J.int)
+  let pos ← J.field j "phypos" (J.list J.int)
+  let stop ← J.field j "stop" (J.list J.int)
+  let gen ← J.field j "genpos" (J.list J.rat)
+  let name ← J.field j "name" (J.opt (J.list J.str))
+  let fn ← J.field j "fncode" (J.opt (J.list J.str))
+  let u ← J.field j "units" J.str
+  let rn ← J.field j "read_name" J.bool
+  let rf ← J.field j "read_fncode" J.bool
+  let un : StoreFrame.Units := if u == "M" || u == "Morgans" then .M else .cM
+  match StoreFrame.emapFromPandas (StoreFrame.emapToPandas (⟨chr, pos, stop, gen, name, fn⟩ : StoreFrame.EMap Rat) un) un rn rf with
+  | .ok m => pure <| J.obj [("chrgrp", J.ofList J.ofInt m.chrgrp), ("phypos", J.ofList J.ofInt m.phypos),
+      ("stop", J.ofList J.ofInt m.stop), ("genpos", J.ofList J.ofRat m.genpos),
+      ("name", J.ofOpt (J.ofList J.ofStr) m.name), ("fncode", J.ofOpt (J.ofList J.ofStr) m.fncode)]
+  | .error e => pure (ofErr e)
+
+/-- `c16.frame_model`: dictionary of coefficient frames -/
+def opFrameModel : J.Op := fun j => do
+  let blocks ← J.field j "blocks" (J.list (fun b => do
+    let k ← J.field b "k" J.str
+    let rows ← J.field b "rows" (J.mat J.rat)
+    pure (k, rows)))
+  let trait ← J.field j "trait" (J.opt (J.list J.str))
+  let t ← J.field j "ntrait" J.nat
+  let m : StoreFrame.LinMod Rat := ⟨blocks, trait⟩
+  match StoreFrame.lmFromPandasDict (StoreFrame.lmToPandasDict m t) (blocks.map (fun kb => kb.2.length)) with
+  | .ok (bs, names) => pure <| J.obj [("blocks", J.ofList (fun (kb : String × List (List Rat)) =>
+      J.obj [("k", J.ofStr kb.1), ("rows", J.ofMat J.ofRat kb.2)]) bs), ("trait", J.ofList ofName names)]
+  | .error e => pure (ofErr e)
+
+/-- `c16.frame_vmat`: variance matrix, long layout (cells nobody addressed are `null`) -/
+def opFrameVMat : J.Op := fun j => do
+  let mat ← J.field j "mat" mat3
+  let taxa ← J.field j "taxa" (J.list J.str)
+  let grp ← J.field j "taxa_grp" (J.opt (J.list J.int))
+  let trait ← J.field j "trait" (J.list J.str)
+  let wg ← J.field j "with_grp" J.bool
+  let v : StoreFrame.VMat Rat := ⟨mat, taxa, grp, trait⟩
+  match StoreFrame.vmFromPandas (StoreFrame.vmToPandas v wg) wg with
+  | .ok r => pure <| J.obj [("mat", J.ofList (J.ofMat (J.ofOpt J.ofRat)) r.mat), ("taxa", J.ofList J.ofStr r.taxa),
+      ("taxa_grp", J.ofOpt (J.ofList J.ofInt) r.taxa_grp), ("trait", J.ofList J.ofStr r.trait)]
+  | .error e => pure (ofErr e)
+
+/-! object graphs: ref = null | {"imm": ds} | {"ptr": n};
+    cell = {"arr": ds} | {"dict": [[k, ref], …]} | {"obj": cls, "attrs": [[k, ref], …]} | {"ext": name} -/
+
+def gref (j : Json) : J.R StoreGraph.Ref :=
+  match j with
+  | .null => pure .none
+  | _ =>
+    match j.getObjVal? "ptr" with
+    | .ok v => do let n ← J.nat v; pure (.ptr n)
+    | .error _ => do let d ← J.field j "imm" ds; pure (.imm d)
+
+def gkvs (j : Json) : J.R (List (String × StoreGraph.Ref)) :=
+  J.list (fun e => do
+    match e with
+    | .arr #[k, r] => do let ks ← J.str k; let rr ← gref r; pure (ks, rr)
+    | _ => J.fail "pair expected") j
+
+def gcell (j : Json) : J.R StoreGraph.Cell :=
+  match j.getObjVal? "arr" with
+  | .ok v => do let d ← ds v; pure (.arr d)
+  | .error _ =>
+    match j.getObjVal? "dict" with
+    | .ok v => do let kvs ← gkvs v; pure (.dict kvs)
+    | .error _ =>
+      match j.getObjVal? "obj" with
+      | .ok v => do let c ← J.str v; let kvs ← J.field j "attrs" gkvs; pure (.obj c kvs)
+      | .error _ => do let n ← J.field j "ext" J.str; pure (.ext n)
+
+def ofGRef : StoreGraph.Ref → Json
+  | .none => .null
+  | .imm d => J.obj [("imm", ofDS d)]
+  | .ptr a => J.obj [("ptr", J.ofNat a)]
+
+def ofGKvs (kvs : List (String × StoreGraph.Ref)) : Json :=
+  J.ofList (fun (kv : String × StoreGraph.Ref) => Json.arr #[J.ofStr kv.1, ofGRef kv.2]) kvs
+
+def ofGCell : StoreGraph.Cell → Json
+  | .arr d => J.obj [("arr", ofDS d)]
+  | .dict kvs => J.obj [("dict", ofGKvs kvs)]
+  | .obj c kvs => J.obj [("obj", J.ofStr c), ("attrs", ofGKvs kvs)]
+  | .ext n => J.obj [("ext", J.ofStr n)]
+
+/-- `c16.deepcopy_graph`: `copy.deepcopy` of the object at `root` -/
+def opDeepcopyGraph : J.Op := fun j => do
+  let heap ← J.field j "heap" (J.list gcell)
+  let root ← J.field j "root" gref
+  let viaMethod ← J.fieldD j "method" J.bool false
+  let (h', r') := if viaMethod then StoreGraph.deepcopyMethod heap root else StoreGraph.deepcopyRoot heap root
+  pure <| J.obj [("heap", J.ofList ofGCell h'), ("root", ofGRef r'), ("wf", J.ofBool (StoreGraph.wfB heap))]
+
 def ops : List (String × J.Op) :=
   [("c16.h5", opH5), ("c16.spec_obj", opSpecObj), ("c16.construct", opConstruct),
    ("c16.parse_path", opParsePath), ("c16.valid", opValid), ("c16.copy", opCopy),
    ("c16.vcf", opVcf), ("c16.spec_vcf", opSpecVcf), ("c16.frame_bv", opFrameBV),
-   ("c16.frame_gmap", opFrameGMap)]
+   ("c16.frame_gmap", opFrameGMap), ("c16.frame_cmat", opFrameCMat), ("c16.frame_egmap", opFrameEMap),
+   ("c16.frame_model", opFrameModel), ("c16.frame_vmat", opFrameVMat),
+   ("c16.deepcopy_graph", opDeepcopyGraph)]
 
 end Drv.C16
